@@ -1,9 +1,266 @@
 ------------------------------ MODULE CmdSet ------------------------------
-(* placeholder: semantics of the set commands (to be written) *)
+(***************************************************************************)
+(* Semantics of the set commands (property C16: "set commands implement    *)
+(* mathematical sets").  internal/modules/set/commands.go, set.go.         *)
+(*                                                                         *)
+(* A stored set is VSet(s), s a finite set of byte strings (members are    *)
+(* kept byte for byte: no numeric typing of members).  An absent key is    *)
+(* the empty set for every reader; a live key of another kind makes every  *)
+(* set command that names it fail without changing anything (C01).         *)
+(*                                                                         *)
+(* Commands with a random choice (SPOP, SRANDMEMBER) read the choice off   *)
+(* the logged reply g, check that it is a legal one (correct size, current *)
+(* members, distinct when the count is positive) and compute the next      *)
+(* state from it.                                                          *)
+(*                                                                         *)
+(* as-code decisions (recorded, not judged) are marked "as-code".          *)
+(***************************************************************************)
 EXTENDS CmdBase
 
-SetOps == {}
-ExecSet(C, a, g) == Skip(C)
-SetDevs(a) == {}
+SetOps == {"SADD", "SCARD", "SDIFF", "SDIFFSTORE", "SINTER", "SINTERCARD", "SINTERSTORE", "SISMEMBER",
+           "SMEMBERS", "SMISMEMBER", "SMOVE", "SPOP", "SRANDMEMBER", "SREM", "SUNION", "SUNIONSTORE"}
+
+----------------------------------------------------------------------------
+\* vocabulary
+
+SIsSet(C, k) == Live(C, k) /\ ValOf(C, k).k = "set"
+SWrong(C, k) == Live(C, k) /\ ValOf(C, k).k # "set"
+
+\* members contributed by a key: an absent key (and, for SWrong keys that a deviation lets through,
+\* a non-set) contributes nothing
+SMem(C, k) == IF SIsSet(C, k) THEN ValOf(C, k).s ELSE {}
+
+\* the member arguments a[from..] as a set of byte strings
+SArgs(a, from) == {TokBytes(a[i]) : i \in from..Len(a)}
+
+\* the key arguments a[lo..hi] as a sequence of key names
+SKeySeq(a, lo, hi) == [i \in 1..(hi - lo + 1) |-> a[lo + i - 1].s]
+
+SAnyWrong(C, ks) == \E i \in DOMAIN ks : SWrong(C, ks[i])
+
+RECURSIVE SSeqOf(_)
+SSeqOf(s) == IF s = {} THEN <<>> ELSE LET x == CHOOSE y \in s : TRUE IN <<x>> \o SSeqOf(s \ {x})
+
+\* an array reply listing the members of s in no particular order (Go map iteration)
+SBag(s) == LET q == SSeqOf(s) IN RBag([i \in 1..Len(q) |-> RStr(q[i])])
+
+\* a reply nothing matches (ReplyEq has no arm for it): an illegal random choice
+SNoMatch == [t |-> "nomatch"]
+
+(***************************************************************************)
+(* Integer arguments (SPOP/SRANDMEMBER count, SINTERCARD limit) are parsed *)
+(* with internal.AdaptType(..).(int): any decimal literal whose value is   *)
+(* integral is accepted ("007", "+2", "2.0", "-0"); a literal with a       *)
+(* fractional value or a non-number is an error.  as-code.                 *)
+(* "int" | "bad" | "skip" (numeric shape the bounded model cannot follow)  *)
+(***************************************************************************)
+SNumKind(t) ==
+    IF IsIntT(t) THEN "int"
+    ELSE IF IsQT(t) THEN (IF t.inf = 0 /\ t.q % 4 = 0 THEN "int" ELSE "bad")
+    ELSE IF IsBytesT(t) THEN
+         IF Unmodelled(t.b) THEN "skip"
+         ELSE IF IsLooseNum(t.b) /\ LooseNum(t.b).ok
+              THEN (IF LooseNum(t.b).isint THEN "int" ELSE "bad")
+         ELSE "bad"
+    ELSE "bad"
+
+SNum(t) == IF IsIntT(t) THEN t.i ELSE IF IsQT(t) THEN t.q \div 4 ELSE LooseNum(t.b).n
+
+----------------------------------------------------------------------------
+\* SADD key member [member ...] : reply = number of members that were not there before
+\* (duplicates in the argument list count once)
+
+XSAdd(C, a) ==
+    IF Len(a) < 3 THEN Fail(C)
+    ELSE LET k == a[2].s   ms == SArgs(a, 3) IN
+         IF SWrong(C, k) THEN Fail(C)
+         ELSE LET old == SMem(C, k) IN
+              Res(Write(C, k, VSet(old \cup ms)), RInt(Cardinality(ms \ old)))
+
+\* SREM key member [member ...] : reply = number of members removed.
+\* as-code: a set emptied by SREM/SPOP/SMOVE stays in the keyspace as an empty set;
+\* SREM on an absent key creates nothing.
+XSRem(C, a) ==
+    IF Len(a) < 3 THEN Fail(C)
+    ELSE LET k == a[2].s   ms == SArgs(a, 3) IN
+         IF ~Live(C, k) THEN Res(C.S, RInt(0))
+         ELSE IF SWrong(C, k) THEN Fail(C)
+         ELSE LET old == SMem(C, k) IN
+              Res(Write(C, k, VSet(old \ ms)), RInt(Cardinality(ms \cap old)))
+
+XSCard(C, a) ==
+    IF Len(a) # 2 THEN Fail(C)
+    ELSE IF SWrong(C, a[2].s) THEN Fail(C)
+    ELSE Res(C.S, RInt(Cardinality(SMem(C, a[2].s))))
+
+XSIsMember(C, a) ==
+    IF Len(a) # 3 THEN Fail(C)
+    ELSE IF SWrong(C, a[2].s) THEN Fail(C)
+    ELSE Res(C.S, RInt(IF TokBytes(a[3]) \in SMem(C, a[2].s) THEN 1 ELSE 0))
+
+\* SMISMEMBER key member [member ...] : one 0/1 integer per argument, in argument order
+XSMIsMember(C, a) ==
+    IF Len(a) < 3 THEN Fail(C)
+    ELSE IF SWrong(C, a[2].s) THEN Fail(C)
+    ELSE LET s == SMem(C, a[2].s) IN
+         Res(C.S, RArr([i \in 1..(Len(a) - 2) |-> RInt(IF TokBytes(a[i + 2]) \in s THEN 1 ELSE 0)]))
+
+XSMembers(C, a) ==
+    IF Len(a) # 2 THEN Fail(C)
+    ELSE IF SWrong(C, a[2].s) THEN Fail(C)
+    ELSE Res(C.S, SBag(SMem(C, a[2].s)))
+
+----------------------------------------------------------------------------
+\* set algebra over the keys named; an absent key never contributes members
+
+SUnionOf(C, ks) == UNION {SMem(C, ks[i]) : i \in DOMAIN ks}
+SInterOf(C, ks) == {m \in SMem(C, ks[1]) : \A i \in DOMAIN ks : m \in SMem(C, ks[i])}
+SDiffOf(C, ks)  == SMem(C, ks[1]) \ UNION {SMem(C, ks[i]) : i \in 2..Len(ks)}
+
+\* the STORE variants replace the destination (whatever it held) with the result.
+\* as-code: an empty result is stored as an empty set; a live destination keeps its deadline.
+SStore(C, dst, s) == Res(Write(C, dst, VSet(s)), RInt(Cardinality(s)))
+
+XSUnion(C, a) ==
+    IF Len(a) < 2 THEN Fail(C)
+    ELSE LET ks == SKeySeq(a, 2, Len(a)) IN
+         IF SAnyWrong(C, ks) THEN Fail(C) ELSE Res(C.S, SBag(SUnionOf(C, ks)))
+
+XSUnionStore(C, a) ==
+    IF Len(a) < 3 THEN Fail(C)
+    ELSE LET ks == SKeySeq(a, 3, Len(a)) IN
+         IF SAnyWrong(C, ks) THEN Fail(C) ELSE SStore(C, a[2].s, SUnionOf(C, ks))
+
+XSInter(C, a) ==
+    IF Len(a) < 2 THEN Fail(C)
+    ELSE LET ks == SKeySeq(a, 2, Len(a)) IN
+         IF SAnyWrong(C, ks) THEN Fail(C) ELSE Res(C.S, SBag(SInterOf(C, ks)))
+
+XSInterStore(C, a) ==
+    IF Len(a) < 3 THEN Fail(C)
+    ELSE LET ks == SKeySeq(a, 3, Len(a)) IN
+         IF SAnyWrong(C, ks) THEN Fail(C) ELSE SStore(C, a[2].s, SInterOf(C, ks))
+
+(***************************************************************************)
+(* SINTERCARD key [key ...] [LIMIT limit]                                  *)
+(* as-code syntax: the keys are the arguments before the first LIMIT       *)
+(* keyword (any case); LIMIT in first position, LIMIT without a value or   *)
+(* with a non-integer value is an error; whatever follows the limit value  *)
+(* is ignored.  A limit <= 0 means no limit.                               *)
+(***************************************************************************)
+SLimitPos(a) == IF \E i \in 2..Len(a) : KW(a[i]) = "LIMIT"
+                THEN CHOOSE i \in 2..Len(a) : KW(a[i]) = "LIMIT" /\ \A j \in 2..(i - 1) : KW(a[j]) # "LIMIT"
+                ELSE 0
+
+XSInterCard(C, a) ==
+    IF Len(a) < 2 THEN Fail(C)
+    ELSE LET p == SLimitPos(a) IN
+         IF p = 2 THEN Fail(C)
+         ELSE IF p # 0 /\ p = Len(a) THEN Fail(C)
+         ELSE IF p # 0 /\ SNumKind(a[p + 1]) = "skip" THEN Skip(C)
+         ELSE IF p # 0 /\ SNumKind(a[p + 1]) = "bad" THEN Fail(C)
+         ELSE LET ks  == SKeySeq(a, 2, IF p = 0 THEN Len(a) ELSE p - 1)
+                  lim == IF p = 0 THEN 0 ELSE SNum(a[p + 1])
+              IN IF SAnyWrong(C, ks) THEN Fail(C)
+                 ELSE LET n == Cardinality(SInterOf(C, ks)) IN
+                      Res(C.S, RInt(IF lim > 0 /\ n > lim THEN lim ELSE n))
+
+(***************************************************************************)
+(* SDIFF key [key ...] / SDIFFSTORE destination key [key ...]              *)
+(* Reference: members of the first set that are in none of the others; an  *)
+(* absent key is the empty set, a non-set key is an error.                 *)
+(* Deviations of the implementation (both pinned by its own tests):        *)
+(*   SDiffBaseAbsent  an absent FIRST key is an error instead of the empty *)
+(*                    set (nothing is stored by SDIFFSTORE)                *)
+(*   SDiffSkipNonSet  a non-set key in second or later position is skipped *)
+(*                    instead of failing the command                       *)
+(***************************************************************************)
+SDiffErr(C, ks) ==
+    \/ SWrong(C, ks[1])
+    \/ ~Live(C, ks[1]) /\ Dev(C, "SDiffBaseAbsent")
+    \/ (\E i \in 2..Len(ks) : SWrong(C, ks[i])) /\ ~Dev(C, "SDiffSkipNonSet")
+
+XSDiff(C, a) ==
+    IF Len(a) < 2 THEN Fail(C)
+    ELSE LET ks == SKeySeq(a, 2, Len(a)) IN
+         IF SDiffErr(C, ks) THEN Fail(C) ELSE Res(C.S, SBag(SDiffOf(C, ks)))
+
+XSDiffStore(C, a) ==
+    IF Len(a) < 3 THEN Fail(C)
+    ELSE LET ks == SKeySeq(a, 3, Len(a)) IN
+         IF SDiffErr(C, ks) THEN Fail(C) ELSE SStore(C, a[2].s, SDiffOf(C, ks))
+
+----------------------------------------------------------------------------
+\* SMOVE source destination member.
+\* as-code: an absent source replies 0 before the destination is looked at.
+\* An absent destination is created when the member is moved.
+
+XSMove(C, a) ==
+    IF Len(a) # 4 THEN Fail(C)
+    ELSE LET src == a[2].s   dst == a[3].s   m == TokBytes(a[4]) IN
+         IF ~Live(C, src) THEN Res(C.S, RInt(0))
+         ELSE IF SWrong(C, src) \/ SWrong(C, dst) THEN Fail(C)
+         ELSE IF ~(m \in SMem(C, src)) THEN Res(C.S, RInt(0))
+         ELSE IF src = dst THEN Res(C.S, RInt(1))
+         ELSE LET S1 == SetVal(C.S, C.now, C.db, src, VSet(SMem(C, src) \ {m}))
+                  S2 == SetVal(S1, C.now, C.db, dst, VSet(SMem(C, dst) \cup {m}))
+              IN Res(S2, RInt(1))
+
+(***************************************************************************)
+(* SPOP key [count] / SRANDMEMBER key [count]                              *)
+(* as-code: the reply is always an array (also without count, where the    *)
+(* count is 1); an absent key replies nil; the count is validated before   *)
+(* the key is looked at.                                                   *)
+(* Size of a legal selection from a set of n members:                      *)
+(*    count >= 0 : min(count, n) distinct members                          *)
+(*    count <  0 : |count| members, repetitions allowed (0 when n = 0)     *)
+(* as-code: SPOP accepts a negative count like SRANDMEMBER and removes the *)
+(* members selected.                                                       *)
+(***************************************************************************)
+SSelSize(cnt, n) == IF cnt >= 0 THEN Min2(cnt, n) ELSE IF n = 0 THEN 0 ELSE -cnt
+
+SLegalSel(g, s, cnt) ==
+    /\ g.t = "arr"
+    /\ Len(g.a) = SSelSize(cnt, Cardinality(s))
+    /\ \A i \in 1..Len(g.a) : g.a[i].t = "bulk" /\ g.a[i].b \in s
+    /\ cnt > 0 => \A i, j \in 1..Len(g.a) : i # j => g.a[i].b # g.a[j].b
+
+SSelReply(g) == RArr([i \in 1..Len(g.a) |-> RStr(g.a[i].b)])
+
+XSRandom(C, a, g, pop) ==
+    IF Len(a) < 2 \/ Len(a) > 3 THEN Fail(C)
+    ELSE IF Len(a) = 3 /\ SNumKind(a[3]) = "skip" THEN Skip(C)
+    ELSE IF Len(a) = 3 /\ SNumKind(a[3]) = "bad" THEN Fail(C)
+    ELSE LET k == a[2].s   cnt == IF Len(a) = 3 THEN SNum(a[3]) ELSE 1 IN
+         IF ~Live(C, k) THEN Res(C.S, RNil)
+         ELSE IF SWrong(C, k) THEN Fail(C)
+         ELSE LET s == SMem(C, k) IN
+              IF ~SLegalSel(g, s, cnt) THEN Res(C.S, SNoMatch)
+              ELSE LET picked == {g.a[i].b : i \in 1..Len(g.a)} IN
+                   Res(IF pop THEN Write(C, k, VSet(s \ picked)) ELSE C.S, SSelReply(g))
+
+----------------------------------------------------------------------------
+
+ExecSet(C, a, g) ==
+    LET op == a[1].s IN
+    CASE op = "SADD"        -> XSAdd(C, a)
+      [] op = "SCARD"       -> XSCard(C, a)
+      [] op = "SDIFF"       -> XSDiff(C, a)
+      [] op = "SDIFFSTORE"  -> XSDiffStore(C, a)
+      [] op = "SINTER"      -> XSInter(C, a)
+      [] op = "SINTERCARD"  -> XSInterCard(C, a)
+      [] op = "SINTERSTORE" -> XSInterStore(C, a)
+      [] op = "SISMEMBER"   -> XSIsMember(C, a)
+      [] op = "SMEMBERS"    -> XSMembers(C, a)
+      [] op = "SMISMEMBER"  -> XSMIsMember(C, a)
+      [] op = "SMOVE"       -> XSMove(C, a)
+      [] op = "SPOP"        -> XSRandom(C, a, g, TRUE)
+      [] op = "SRANDMEMBER" -> XSRandom(C, a, g, FALSE)
+      [] op = "SREM"        -> XSRem(C, a)
+      [] op = "SUNION"      -> XSUnion(C, a)
+      [] op = "SUNIONSTORE" -> XSUnionStore(C, a)
+
+SetDevs(a) ==
+    IF a[1].s \in {"SDIFF", "SDIFFSTORE"} THEN {"SDiffBaseAbsent", "SDiffSkipNonSet"} ELSE {}
 
 =============================================================================
